@@ -156,19 +156,35 @@ def check(repo: Repo, run: Run) -> None:
             continue
         n_methods += 1
         bad = []
+        def may_be(t):
+            """the objects a mutated term can denote: a local name bound to `self.filter_class` on one branch and to a fresh
+            list on the other denotes the caller's list on the first"""
+            if t is None:
+                return
+            if t.op == "mut":
+                yield from may_be(t.a[0])
+            elif t.op == "ite":
+                yield from may_be(t.a[1])
+                yield from may_be(t.a[2])
+            elif t.op == "widen":
+                for x in t.a[2]:
+                    if x.op != "widen":
+                        yield from may_be(x)
+            else:
+                yield t
         for e in rec.effects:
-            pth = e.path if e.path is not None else e.base
-            chain = []
-            cur = pth
-            while cur is not None and cur.op in ("attr", "sub"):
-                chain.append(cur)
-                cur = cur.a[0]
             hit = None
-            if e.kind == "attr-store" and cur == SELF and not chain and str(e.key).startswith("filter_"):
-                hit = f"self.{e.key} is rebound"
-            for c in chain:
-                if c.op == "attr" and c.a[0] == SELF and c.a[1].startswith("filter_"):
-                    hit = f"self.{c.a[1]} is mutated in place ({e.kind} {e.key})"
+            for pth in list(may_be(e.path)) + list(may_be(e.base)):
+                chain = []
+                cur = pth
+                while cur is not None and cur.op in ("attr", "sub"):
+                    chain.append(cur)
+                    cur = cur.a[0]
+                if e.kind == "attr-store" and cur == SELF and not chain and str(e.key).startswith("filter_"):
+                    hit = f"self.{e.key} is rebound"
+                for c in chain:
+                    if c.op == "attr" and c.a[0] == SELF and c.a[1].startswith("filter_") and e.kind != "attr-load":
+                        hit = f"self.{c.a[1]} is mutated in place ({e.kind} {e.key})"
             if hit:
                 bad.append((hit, e))
         for hit, e in bad:
@@ -206,6 +222,10 @@ def check(repo: Repo, run: Run) -> None:
     # inner event pipeline
     inner_src, inner = pipeline.parse(src.a[1][0])
     ok_in = (inner_src.op == "call" and inner_src.a[0].op == "attr" and inner_src.a[0].a[1] == "parse")
+    if not ok_in and inner_src.op == "call" and ((inner_src.a[0].op == "attr" and inner_src.a[0].a[0] == sym.param("self")
+                                                  and inner_src.a[0].a[1] in ci.methods) or inner_src.a[0].op == "func"):
+        raise AnalysisError(f"traces(): the events reach the trace decoder through {sym.pretty(inner_src.a[0])[:60]}(...), a stage that "
+                            f"is not a filter/map over the parser's stream in any recognised form")
     run.ob("R5", MOD, "traces", "event source", ok_in,
            "" if ok_in else f"the trace decoder is not fed from the container parser: {sym.pretty(inner_src)[:100]}",
            line=fn.lineno)
@@ -251,6 +271,14 @@ def check(repo: Repo, run: Run) -> None:
                    f"the class/subclass predicate has unexpected terms {[sym.pretty(r) for r in rest]} "
                    f"or lacks `eventid >> 16 in filter_subclass`", facts={"predicate": sym.pretty(nb)[:300]}, line=fn.lineno)
             want = frozenset({N(T("bool", ("or", (C, S))))})
+            if cj != want:
+                simple = all(x.op in ("bool", "not", "cmp", "const", "attr", "param") for c_ in cj for x in sym.walk(c_))
+                if not simple:
+                    # the condition is computed from a derived list (`consumed or filter_subclass` with consumed built from the
+                    # filters): whether it is equivalent to "a class or subclass filter is set" is not decided here
+                    raise AnalysisError("traces(): the condition under which the class/subclass filter is applied is computed from "
+                                        f"derived values ({sorted(map(sym.pretty, cj))[0][:100]}): its equivalence with `filter_class "
+                                        "or filter_subclass` is not decided")
             run.ob("R5", MOD, "traces", "events: class stage iff any filter", cj == want,
                    f"the class/subclass filter is applied when {sorted(map(sym.pretty, cj))}, not iff a class or subclass "
                    f"filter is set", nontrivial=False)
